@@ -195,6 +195,8 @@ def tr2(ctx, flavours):
                             stores.append((s['sp'], 'store', ('aggr', rv['ak'], ())))
                         else:
                             stores.append((s['sp'], 'store', pv.of_operand(rv['ops'][0]) if rv.get('ops') else ('?',)))
+            if b['name'] == 'transpose' and not any(k_ == 'store' for _, k_, _ in stores):
+                out.append(Obl('TR2', q, b['span'], 'transpose() stores Transposition::Inbound', False, 'transpose() stores no direction (the search stays forward)'))
             for sp, kind, term in stores:
                 v = term[1].split('::')[-1] if isinstance(term, tuple) and term[0] == 'aggr' else pretty(term)
                 if kind == 'ctor':
@@ -777,4 +779,131 @@ def opt_rules(ctx, flavours, what):
                 got += own
                 ok = len(got) == 1 and got[0][1] == want
                 out.append(Obl('OPT', nb['q'], nb['span'], 'Node::%s builds an Order with Ordering::%s' % (name, want), ok, 'builds %s' % [v for _, v in got]))
+    return out
+
+
+def set_rules(ctx, flavours, fams=BUILDERS):
+    """SET: the builder stores what it is given.  new(root): root = the argument, no target, the Empty callback; target(k): target =
+    Some(k) and nothing else changes; for_each(f) / filter(f): the callback becomes ForEach(f) / Filter(f) and nothing else changes."""
+    F = ctx.F
+    out = []
+    P1_, P2_ = ('param', 1), ('param', 2)
+    for fl in flavours:
+        for fam in fams:
+            path = '%s::node::algo::%s::%s' % (fl, fam.lower(), fam)
+            adt = F.adts.get(path)
+            if not adt:
+                continue
+            fields = adt['variants'][0]['fields']
+
+            def fidx(pred):
+                r = [i for i, f in enumerate(fields) if pred(F.types[f['ty']])]
+                return r[0] if len(r) == 1 else None
+            i_root = fidx(lambda t: t.get('p') == fl + '::node::Node' or (t['k'] == 'ref' and t.get('a') and F.types[t['a'][0]].get('p') == fl + '::node::Node'))
+            i_tgt = fidx(lambda t: t.get('p') == 'std::option::Option')
+            i_met = fidx(lambda t: (t.get('p') or '').endswith('::node::algo::method::Method'))
+
+            def stores_of(b):
+                """{field index: value term} written by b into the builder it returns (direct field stores and struct aggregates)"""
+                pv = F.prov(b)
+                st = {}
+                by_value = b['argc'] >= 1 and F.types[b['locals'][1]].get('p') == path
+                for bb in b['blocks']:
+                    if bb['cleanup']:
+                        continue
+                    for s_ in bb['stmts']:
+                        if s_['k'] != 'assign':
+                            continue
+                        rv = s_['rv']
+                        if rv['k'] == 'aggr' and rv['ak'] == 'adt:%s::%s' % (path, adt['variants'][0]['name']):
+                            for i, o in enumerate(rv['ops']):
+                                t_ = pv.of_operand(o)
+                                if by_value and strip_payload(t_) == ('f', P1_, str(i)):
+                                    continue
+                                st.setdefault(i, []).append(t_)
+                        elif s_['dst']['p'] and by_value and s_['dst']['l'] == 1:
+                            m = re.match(r'^\.(\d+)', s_['dst']['p'][0])
+                            if m:
+                                t_ = ('aggr', rv['ak'], tuple(pv.of_operand(o) for o in rv['ops'])) if rv['k'] == 'aggr' else (pv.of_operand(rv['ops'][0]) if rv.get('ops') else ('?',))
+                                st.setdefault(int(m.group(1)), []).append(t_)
+                return st
+
+            def val_ok(t_, variant, payload):
+                from .core import deep_unwrap
+                t_ = deep_unwrap(t_)
+                if not (isinstance(t_, tuple) and t_ and t_[0] == 'aggr' and t_[1].endswith('::' + variant)):
+                    return False
+                if payload is None:
+                    return len(t_[2]) == 0
+                return len(t_[2]) == 1 and deep_unwrap(t_[2][0]) == payload
+            ctors = sorted(q for q, b_ in F.bodies.items() if b_['impl_self_q'] == path and not b_['impl_trait'] and b_['kind'] != 'Closure' and
+                           F.types[b_['locals'][0]].get('p') == path and b_['argc'] >= 1 and F.types[b_['locals'][1]].get('p') != path and
+                           F.fns.get(q, {}).get('vis') == 'Public')
+            if not ctors:
+                out.append(Obl('SET', path, '-', 'builder constructor present', False, 'anchor missing'))
+            todo_ = [(q.split('::')[-1], None, True) for q in ctors] + [('target', (i_tgt, 'Some', P2_), False), ('for_each', (i_met, 'ForEach', P2_), False), ('filter', (i_met, 'Filter', P2_), False)]
+            for name, want, is_ctor in todo_:
+                b = F.bodies.get(path + '::' + name)
+                if b is None:
+                    if name == 'target' and i_tgt is None:
+                        continue
+                    out.append(Obl('SET', path + '::' + name, '-', 'builder method present', False, 'anchor missing'))
+                    continue
+                st = stores_of(b)
+                why = []
+                if is_ctor:
+                    from .core import deep_unwrap
+                    if i_root is None or len(st.get(i_root, [])) != 1 or deep_unwrap(st[i_root][0]) != P1_:
+                        why.append('root is %s, not the argument' % [pretty(x) for x in st.get(i_root, [])])
+                    if i_tgt is not None and not (len(st.get(i_tgt, [])) == 1 and val_ok(st[i_tgt][0], 'None', None)):
+                        why.append('initial target is %s, not None' % [pretty(x) for x in st.get(i_tgt, [])])
+                    if i_met is None or not (len(st.get(i_met, [])) == 1 and val_ok(st[i_met][0], 'Empty', None)):
+                        why.append('initial callback is %s, not Method::Empty' % [pretty(x) for x in st.get(i_met, [])])
+                    inst = '%s(root): root = argument, no target, Empty callback' % name
+                else:
+                    fi, variant, payload = want
+                    if fi is None:
+                        if name == 'target':
+                            continue      # (Order has no target)
+                        why.append('field not identified')
+                    else:
+                        if set(st) != {fi}:
+                            why.append('writes fields %s, expected only field %d' % (sorted(st), fi))
+                        if len(st.get(fi, [])) != 1 or not val_ok(st[fi][0], variant, payload):
+                            why.append('stores %s, expected %s(argument)' % ([pretty(x) for x in st.get(fi, [])], variant))
+                        rt = strip_payload(F.prov(b).of_local(0))
+                        if not (rt == P1_ or (isinstance(rt, tuple) and rt and rt[0] == 'aggr')):
+                            why.append('does not return the updated builder: ' + pretty(rt))
+                    inst = '%s(x) stores %s(x) and changes nothing else' % (name, variant)
+                out.append(Obl('SET', b['q'], b['span'], inst, not why, '; '.join(why) if why else 'ok'))
+    return out
+
+
+def entry_all(ctx, flavours, fams=BUILDERS):
+    """ENTRY-ALL: every public method of a search builder that is neither a constructor nor a setter (does not return the builder)
+    answers through a kernel run: it calls a kernel, or another such method.  (A method whose kernel call has been folded away --
+    `if true { Some(..) }` -- is no longer discovered as an entry point by the other rules; this one anchors on the API.)"""
+    F = ctx.F
+    out = []
+    ent = {b['q'] for b, sites in entries(ctx, flavours, fams)}
+    for fl in flavours:
+        for fam in fams:
+            path = '%s::node::algo::%s::%s' % (fl, fam.lower(), fam)
+            if path not in F.adts:
+                continue
+            meths = {q: b for q, b in F.bodies.items() if b['impl_self_q'] == path and not b['impl_trait'] and b['kind'] != 'Closure' and q not in getattr(F, 'absorbed', ()) and
+                     F.fns.get(q, {}).get('vis') == 'Public' and F.types[b['locals'][0]].get('p') != path}
+            good = {q for q in meths if q in ent}
+            changed = True
+            while changed:
+                changed = False
+                for q, b in meths.items():
+                    if q not in good and any(t.get('res') in good for bi, t in calls_in(b, lambda t: t.get('local'))):
+                        good.add(q)
+                        changed = True
+            for q, b in sorted(meths.items()):
+                out.append(Obl('ENTRY-ALL', q, b['span'], 'public search method answers through a kernel run', q in good,
+                               'calls a kernel (directly or through another search method)' if q in good else 'runs no traversal kernel on any path'))
+            if not meths:
+                out.append(Obl('ENTRY-ALL', path, '-', 'public search methods present', False, 'anchor missing'))
     return out
